@@ -220,6 +220,119 @@ Section Ring.
     intros j Hj Hj0. rewrite chain_sources.
     destruct (Hsame j ltac:(lia)) as (j' & Hj' & <-). apply in_map. apply in_seq. lia.
   Qed.
+
+  (* ---- the pair polyply restrains: the molecule edge the search tree leaves out, ends in discovery order ---- *)
+  Lemma same_edge_spec f e : same_edge f e = true <-> f = e \/ f = (snd e, fst e).
+  Proof.
+    unfold same_edge. destruct f as [f1 f2], e as [e1 e2]. cbn [fst snd].
+    rewrite orb_true_iff, !andb_true_iff, !Z.eqb_eq. split.
+    - intros [[-> ->]|[-> ->]]; [left|right]; reflexivity.
+    - intros [H|H]; injection H as -> ->; [left|right]; split; reflexivity.
+  Qed.
+
+  Lemma in_tree_spec t e : in_tree t e = true <-> In e t \/ In (snd e, fst e) t.
+  Proof.
+    unfold in_tree. rewrite existsb_exists. split.
+    - intros (f & Hf & Hs). apply same_edge_spec in Hs. destruct Hs as [->| ->]; [left|right]; exact Hf.
+    - intros [H|H]; eexists; (split; [exact H|]); apply same_edge_spec; [left|right]; reflexivity.
+  Qed.
+
+  Lemma in_chain lab i : (i < n - 1)%nat -> In (lab i, lab (S i)) (chain lab 0 (n - 1)).
+  Proof. intros Hi. unfold chain. apply in_map_iff. exists i. split; [reflexivity|]. apply in_seq. lia. Qed.
+
+  Lemma closing_not_in_chain lab (inj : forall i j, (i < n)%nat -> (j < n)%nat -> lab i = lab j -> i = j) :
+    in_tree (chain lab 0 (n - 1)) (lab 0%nat, lab (n - 1)%nat) = false /\
+    in_tree (chain lab 0 (n - 1)) (lab (n - 1)%nat, lab 0%nat) = false.
+  Proof.
+    assert (A : ~ In (lab 0%nat, lab (n - 1)%nat) (chain lab 0 (n - 1))).
+    { unfold chain. rewrite in_map_iff. intros (i & Hi & Hs). apply in_seq in Hs.
+      injection Hi as H1 H2. apply inj in H1; [|lia|lia]. subst i. apply inj in H2; lia. }
+    assert (B : ~ In (lab (n - 1)%nat, lab 0%nat) (chain lab 0 (n - 1))).
+    { unfold chain. rewrite in_map_iff. intros (i & Hi & Hs). apply in_seq in Hs.
+      injection Hi as H1 H2. apply inj in H2; [|lia|lia]. lia. }
+    split; apply not_true_iff_false; rewrite in_tree_spec; cbn [fst snd]; tauto.
+  Qed.
+
+  (* every edge of a ring is a tree edge (in one direction) or the closing edge (in one direction) *)
+  Lemma ring_edge_class lab k x : is_ring lab -> (k < n)%nat -> In x (adj (lab k)) ->
+    in_tree (chain lab 0 (n - 1)) (lab k, x) = true \/ (lab k, x) = (lab 0%nat, lab (n - 1)%nat) \/ (lab k, x) = (lab (n - 1)%nat, lab 0%nat).
+  Proof.
+    intros [inj adjr] Hk Hx.
+    assert (Hc : x = lab (pd k) \/ x = lab (sc k)).
+    { destruct (adjr k Hk) as [E|E]; rewrite E in Hx; cbn [In] in Hx; intuition. }
+    destruct Hc as [-> | ->].
+    - unfold pd. destruct (Nat.eqb_spec k 0) as [->|Hk0]; [right; left; reflexivity|].
+      left. apply in_tree_spec. right. cbn [fst snd].
+      replace (lab k) with (lab (S (k - 1))) by (f_equal; lia). apply in_chain. lia.
+    - unfold sc. destruct (Nat.eqb_spec (S k) n) as [E|E].
+      + right; right. replace k with (n - 1)%nat by lia. reflexivity.
+      + left. apply in_tree_spec. left. apply in_chain. lia.
+  Qed.
+
+  Lemma index_of_head x r : index_of x (x :: r) = 0%nat.
+  Proof. cbn [index_of]. rewrite Z.eqb_refl. reflexivity. Qed.
+  Lemma index_of_other x y r : y <> x -> index_of x (y :: r) = S (index_of x r).
+  Proof. intros H. cbn [index_of]. destruct (Z.eqb_spec y x); [contradiction|reflexivity]. Qed.
+
+  Theorem ring_closing_pair node edges : is_ring node ->
+    (forall e, In e edges -> (exists k, (k < n)%nat /\ fst e = node k) /\ In (snd e) (adj (fst e))) ->
+    exists a b, adj (node 0%nat) = [a; b] /\ a <> b /\
+      ((In (node 0%nat, b) edges \/ In (b, node 0%nat) edges) ->
+       closing_pair adj edges n (node 0%nat) = Some (node 0%nat, b)) /\
+      ~ In (node 0%nat, b) (tree_edges adj n (node 0%nat)) /\ ~ In (b, node 0%nat) (tree_edges adj n (node 0%nat)).
+  Proof.
+    intros R Hedges. destruct (ring_dfs_tree node R) as (lab & RL & L0 & Eadj & Edfs & Hsame).
+    pose proof RL as [inj adjr].
+    assert (Etree : tree_edges adj n (node 0%nat) = chain lab 0 (n - 1)).
+    { unfold tree_edges. rewrite Edfs, chain_sources, <- L0.
+      change (lab 0%nat :: map lab (seq 1 (n - 1))) with (map lab (seq 0 (S (n - 1)))).
+      apply tree_order_chain; [exact inj|lia]. }
+    destruct (closing_not_in_chain lab inj) as [NC1 NC2].
+    exists (lab 1%nat), (lab (n - 1)%nat). split; [exact Eadj|].
+    split; [intros Heq; apply inj in Heq; lia|].
+    split.
+    - intros Hlisted. unfold closing_pair. rewrite Etree.
+      set (f := fun e => negb (in_tree (chain lab 0 (n - 1)) e)).
+      assert (Hcls : forall e, In e (filter f edges) -> e = (lab 0%nat, lab (n - 1)%nat) \/ e = (lab (n - 1)%nat, lab 0%nat)).
+      { intros e He. apply filter_In in He. destruct He as [He Hf]. unfold f in Hf. apply negb_true_iff in Hf.
+        destruct (Hedges e He) as ((k & Hk & Ek) & Hin).
+        assert (exists k', (k' < n)%nat /\ fst e = lab k') as (k' & Hk' & Ek').
+        { destruct k as [|k]; [exists 0%nat; split; [lia|]; rewrite Ek, L0; reflexivity|].
+          destruct (Hsame (S k) ltac:(lia)) as (j' & Hj' & Ej'). exists j'. split; [lia|]. rewrite Ek, Ej'. reflexivity. }
+        rewrite Ek' in Hin. destruct (ring_edge_class lab k' (snd e) RL Hk' Hin) as [Ht|Hc].
+        - rewrite <- Ek' in Ht. rewrite <- surjective_pairing in Ht. rewrite Ht in Hf. discriminate.
+        - rewrite <- Ek', <- surjective_pairing in Hc. exact Hc. }
+      assert (Hne : filter f edges <> []).
+      { rewrite <- L0 in Hlisted. intros Hnil.
+        destruct Hlisted as [H|H]; (eapply in_nil; rewrite <- Hnil; apply filter_In; split; [exact H|]); unfold f;
+          [rewrite NC1|rewrite NC2]; reflexivity. }
+      destruct (filter f edges) as [|e r] eqn:Ef; [contradiction|].
+      assert (Hidx0 : index_of (lab 0%nat) (tree_nodes adj n (node 0%nat)) = 0%nat).
+      { unfold tree_nodes. rewrite <- L0. apply index_of_head. }
+      assert (Hidx1 : exists m, index_of (lab (n - 1)%nat) (tree_nodes adj n (node 0%nat)) = S m).
+      { unfold tree_nodes. rewrite <- L0. eexists. apply index_of_other. intros Heq. apply inj in Heq; lia. }
+      destruct Hidx1 as (m & Hidx1).
+      destruct (Hcls e (or_introl eq_refl)) as [-> | ->]; unfold orient; cbn [fst snd]; rewrite Hidx0, Hidx1;
+        unfold Nat.ltb; cbn [Nat.leb]; rewrite L0; reflexivity.
+    - rewrite Etree, <- L0. split.
+      + intros H. pose proof (proj2 (in_tree_spec _ (lab 0%nat, lab (n - 1)%nat)) (or_introl H)) as K. congruence.
+      + intros H. pose proof (proj2 (in_tree_spec _ (lab (n - 1)%nat, lab 0%nat)) (or_introl H)) as K. congruence.
+  Qed.
+
+  (* whatever the molecule: when an edge is left out by the search tree the restrained pair is such an edge, read in the
+     order the tree reached its ends; otherwise it is the pair of tree ends *)
+  Theorem closing_pair_spec edges root p : closing_pair adj edges n root = Some p ->
+    (exists e, In e edges /\ in_tree (tree_edges adj n root) e = false /\ p = orient (tree_nodes adj n root) e) \/
+    ((forall e, In e edges -> in_tree (tree_edges adj n root) e = true) /\ cycle_pair adj n root = Some p).
+  Proof.
+    unfold closing_pair. set (f := fun e => negb (in_tree (tree_edges adj n root) e)).
+    destruct (filter f edges) as [|e r] eqn:Ef.
+    - intros H. right. split; [|exact H]. intros e He. destruct (in_tree (tree_edges adj n root) e) eqn:E; [reflexivity|].
+      exfalso. eapply in_nil. rewrite <- Ef. apply filter_In. split; [exact He|]. unfold f. rewrite E. reflexivity.
+    - intros H. injection H as <-. left. exists e.
+      assert (He : In e (filter f edges)) by (rewrite Ef; left; reflexivity).
+      apply filter_In in He. destruct He as [He Hf]. unfold f in Hf. apply negb_true_iff in Hf. auto.
+  Qed.
 End Ring.
 
 (* non-vacuity: a ring of five residues with arbitrary keys, mixed adjacency orders, rooted at 7 *)
@@ -233,4 +346,13 @@ Proof.
   - intros k Hk. destruct k as [|[|[|[|[|k]]]]]; try lia; cbn; auto.
 Qed.
 Example ex_ring_pair : cycle_pair ex_ring_adj 5 7 = Some (7, 11) /\ tree_edges ex_ring_adj 5 7 = [(7, 3); (3, 20); (20, 5); (5, 11)].
+Proof. vm_compute. split; reflexivity. Qed.
+
+(* the same ring with a ligand residue 99 attached to the residue the search reaches last (11): the tree ends at the ligand,
+   the restrained pair is still the closing edge of the ring *)
+Definition ex_lig_adj : Z -> list Z :=
+  adj_of [(7, [3; 11]); (3, [7; 20]); (20, [5; 3]); (5, [20; 11]); (11, [5; 7; 99]); (99, [11])].
+Example ex_ring_with_ligand :
+  cycle_pair ex_lig_adj 6 7 = Some (7, 99) /\
+  closing_pair ex_lig_adj [(7, 3); (7, 11); (3, 20); (20, 5); (5, 11); (11, 99)] 6 7 = Some (7, 11).
 Proof. vm_compute. split; reflexivity. Qed.
